@@ -78,6 +78,10 @@ def run(ctx):
         allnames = {x for d in used.values() for x, _ in d["shape"].ids + d["shape"].ms} | set(used) | set(re.findall(r"[A-Za-z_][A-Za-z_0-9]*", c["script"]))
         if len({x.lower() for x in allnames}) == len(allnames):
             continue
+        # the name mapping can turn a valid rename into `rename X to Y` with Y (exactly) an existing component: an invalid script (1-1-6-8)
+        comp_names = {x for d in used.values() for x, _ in d["shape"].ids + d["shape"].ms}
+        if any(tgt in comp_names for tgt in re.findall(r"\brename\s+\w+\s+to\s+(\w+)", c["script"])):
+            continue
         cases.append(c)
     model = exprk.eval_model(cases, "c29")
     hist, dis = {}, 0
